@@ -196,6 +196,11 @@ def make_storages(kind, sched):
         s = JournalStorage(be)
         ts.patch_locks(sched, s)
         return [s, s, s], s
+    if kind == "journal_forked":           # ONE JournalStorage; fork_children() replaces it by forked copies after the set-up
+        fork_shims(sched)
+        s = JournalStorage(be)
+        ts.patch_locks(sched, s)
+        return [s, s, s], JournalStorage(be)
     if kind == "journal_procs":            # one JournalStorage object per worker on one journal: separate processes
         ss = [JournalStorage(be) for _ in range(3)]
         for s in ss:
@@ -203,6 +208,56 @@ def make_storages(kind, sched):
         obs = JournalStorage(be)
         return ss, obs
     raise ValueError(kind)
+
+
+def fork_shims(sched):
+    """Process identity as the journal module sees it when workers are fork()ed children that run as scheduled threads:
+    os.getpid() = a per-worker pid (the parent, i.e. the harness's main thread: 1000), threading.get_ident() = the ident of
+    the parent's main thread in every process (fork keeps it)."""
+    import os as real_os
+    import threading as real_threading
+
+    from optuna.storages.journal import _storage as JS
+
+    class OsShim:
+        def __getattr__(self, name):
+            return getattr(real_os, name)
+
+        @staticmethod
+        def getpid():
+            w = sched.current_worker()
+            return 1000 if w is None else 5000 + w.wid
+
+    class ThreadingShim:
+        def __getattr__(self, name):
+            return getattr(real_threading, name)
+
+        @staticmethod
+        def get_ident():
+            return 77
+
+    old = (JS.os, JS.threading)
+    JS.os, JS.threading = OsShim(), ThreadingShim()
+
+    def restore():
+        JS.os, JS.threading = old
+    _CLOSERS.append(restore)
+
+
+def fork_children(parent, sched, n=3):
+    """What n child processes hold after fork(): the same JournalStorage object (same uuid prefix), each with its own copy
+    of the replayed state (fork_shims gives each its process id)."""
+    import copy
+    import threading as real_threading
+
+    out = []
+    for _ in range(n):
+        child = copy.copy(parent)
+        child._replay_result = copy.deepcopy(parent._replay_result)
+        child._thread_lock = real_threading.Lock()
+        ts.patch_locks(sched, child)
+        out.append(child)
+    return out
 
 
 def execute(kind, programs, choose_factory, sched=None, group=None, files=None):
@@ -216,6 +271,8 @@ def execute(kind, programs, choose_factory, sched=None, group=None, files=None):
         raw_events.append(["start", 0, op, ret])
         raw_events.append(["end", 0, None, None])
     shared = (rp0.rawS, rp0.rawT, rp0.s_of_raw, rp0.t_of_raw)
+    if kind == "journal_forked":
+        storages = fork_children(storages[0], sched)
 
     def mk(w, prog, storage):
         rp = sd.Replayer(storage)
